@@ -458,6 +458,11 @@ func concMain(args []string) {
 		for k := 0; k < 50 && runtime.NumGoroutine() > before+2; k++ {
 			time.Sleep(2 * time.Millisecond)
 		}
+		// after an error Parallelise returns at once while the remaining invocations may not have been scheduled yet:
+		// give them time (a loaded machine) before counting
+		for k := 0; k < 1000 && int(atomic.LoadInt32(&calls)) < n; k++ {
+			time.Sleep(2 * time.Millisecond)
+		}
 		canon := fmt.Sprintf("parallelise n=%d failing=%d", n, len(failing))
 		rep.Eval(canon+fmt.Sprint(i), n > 1)
 		rep.Hist("parallelise")
